@@ -403,14 +403,14 @@ def ttl_run(ctx, k):
 def run(ctx):
     i = 0
     kinds = ["json", "simple", "rdict", "rdict", "rlist", "rdict"]
-    for k in range(ctx.pick(420, 8000)):
+    for k in range(ctx.pick(420, 80000)):
         i += 1
         if not ctx.mine(i):
             continue
         kind = kinds[k % len(kinds)]
         n_clients = 2 if (kind in ("rdict", "rlist") and (k // len(kinds)) % 2 == 0) else 1
         sequence(ctx, k, kind, n_clients)
-    for k in range(ctx.pick(16, 120)):
+    for k in range(ctx.pick(16, 600)):
         i += 1
         if ctx.mine(i):
             persistence_run(ctx, k)
